@@ -235,7 +235,8 @@ func (torrent *Torrent) MetadataComplete() error {
 				return errors.New("file has no path")
 			}
 			for _, c := range path {
-				if c == "" || strings.Contains(c, "/") {
+				if c == "" || c == "." || c == ".." ||
+					strings.Contains(c, "/") {
 					return errors.New("bad file path")
 				}
 			}
